@@ -998,3 +998,131 @@ def cache_network(ctx):
             ctx.require(scoped, SVC + ':' + qn, 'cached rows are selected by %s without a predicate on network_name' % ', '.join(by_height)[:80], c,
                         'two networks share one cache database: the block page of one network is served with the transactions of the other network cached at the same height')
     ctx.floor(n, 2, 'height look-ups in the cache readers')
+
+
+@PROP.obligation('C20.provider-work-guarded', canaries=[
+    mut.Canary('the provider client is constructed before the guarded block', SVC, lambda tree: _mut_hoist_client(tree)),
+])
+def provider_work_guarded(ctx):
+    """"Providers that raise ... are skipped" covers everything done FOR one provider: looking up its module and class, constructing the
+    client (bitcoind / litecoind clients raise in their constructor when no url or config file is set, an unparsable rpc url raises in
+    the proxy), asking it. In the provider loop of Service._provider_execute every call - apart from len / isinstance / logging - sits
+    inside the try whose handler catches Exception, records the error and goes on: a call outside of it lets one misconfigured
+    provider abort the query while healthy providers further down are never asked."""
+    q = SVC + ':Service._provider_execute'
+    fn = ctx.repo.func(q)
+    loops = [n for n in walk_no_nested(fn) if isinstance(n, ast.For) and isinstance(n.target, ast.Name) and n.target.id == 'sp']
+    if len(loops) != 1:
+        ctx.undecided('_provider_execute: provider loop not found')
+    loop = loops[0]
+    guarded = set()
+    tries = 0
+    for t in ast.walk(loop):
+        if isinstance(t, ast.Try) and any(h.type is None or norm(h.type) in ('Exception', 'BaseException') for h in t.handlers):
+            tries += 1
+            for s_ in t.body:
+                for x in ast.walk(s_):
+                    guarded.add(id(x))
+            for h in t.handlers:
+                for x in ast.walk(h):
+                    guarded.add(id(x))          # the handler itself: bookkeeping, decided by C20.raise-skip
+    if not tries:
+        ctx.violate(q, 'the provider loop has no try block that catches Exception', loop, 'one failing provider fails the whole query')
+        return
+    harmless = ('len', 'isinstance', 'hasattr', 'list', 'sorted', 'str')
+    n = out = 0
+    for c in ast.walk(loop):
+        if not isinstance(c, ast.Call):
+            continue
+        n += 1
+        if id(c) in guarded:
+            continue
+        f = norm(c.func)
+        if f in harmless or f.startswith('_logger.'):
+            continue
+        out += 1
+        ctx.violate(q, '`%s` is called inside the provider loop but outside the try block that skips failing providers' % norm(c)[:70], c,
+                    "a provider named bitcoind with an empty url (providers.examples.json), an unknown client class or an unparsable rpc url raises out of the query - also out of Service() itself - instead of being skipped: nothing lands in self.errors and the healthy providers after it are never asked")
+    ctx.saw('%d calls in the provider loop, %d of them outside the guarded block' % (n, out))
+    ctx.floor(n, 10, 'calls in the provider loop')
+
+
+def _mut_hoist_client(tree):
+    """move `client = getattr(...)`, `providerclient = getattr(...)` and `pc_instance = providerclient(...)` in front of the try"""
+    for cls in tree.body:
+        if isinstance(cls, ast.ClassDef) and cls.name == 'Service':
+            for f in cls.body:
+                if isinstance(f, ast.FunctionDef) and f.name == '_provider_execute':
+                    for loop in ast.walk(f):
+                        if isinstance(loop, ast.For) and isinstance(loop.target, ast.Name) and loop.target.id == 'sp':
+                            for i, s_ in enumerate(loop.body):
+                                if isinstance(s_, ast.Try):
+                                    moved = [x for x in s_.body if isinstance(x, ast.Assign) and isinstance(x.targets[0], ast.Name) and x.targets[0].id in ('client', 'providerclient', 'pc_instance')]
+                                    if len(moved) != 3:
+                                        return False
+                                    s_.body = [x for x in s_.body if x not in moved]
+                                    loop.body[i:i] = moved
+                                    return True
+    return False
+
+
+@PROP.obligation('C20.page-window', canaries=[
+    mut.replace_expr(SVC, 'Cache.getblocktransactions', 'DbCacheTransaction.index < n_to', 'DbCacheTransaction.index <= n_to', 'the page read from the cache includes the first transaction of the next page'),
+    mut.replace_expr(SVC, 'Cache.getblocktransactions', 'DbCacheTransaction.index >= n_from', 'DbCacheTransaction.index > n_from', 'the first transaction of a page is not read from the cache'),
+])
+def page_window(ctx):
+    """Cache.getblocktransactions(height, page, limit) returns the cached transactions of ONE page: those with index (page-1)*limit ...
+    page*limit - 1. The conditions the query puts on DbCacheTransaction.index (comparisons, .between(a, b) - inclusive on both ends in
+    SQL) are evaluated for every page 1..5, limit 1..7 and index 0..40: exactly the `limit` indexes of the page satisfy them. One index
+    more and Service.getblock, which counts what the cache returned, serves limit+1 transactions without asking a provider."""
+    q = SVC + ':Cache.getblocktransactions'
+    fn = ctx.repo.func(q)
+    conds = []
+    for c in ast.walk(fn):
+        if isinstance(c, ast.Call) and isinstance(c.func, ast.Attribute) and c.func.attr in ('filter', 'where'):
+            for a in c.args:
+                if any(isinstance(x, ast.Attribute) and x.attr == 'index' and norm(x.value) == 'DbCacheTransaction' for x in ast.walk(a)):
+                    conds.append(a)
+    if not conds:
+        ctx.undecided('getblocktransactions: no condition on DbCacheTransaction.index')
+    locals_ = [a for a in fn.body if isinstance(a, ast.Assign) and len(a.targets) == 1 and isinstance(a.targets[0], ast.Name) and
+               all(isinstance(x, (ast.Name, ast.Constant, ast.BinOp, ast.operator, ast.expr_context, ast.UnaryOp, ast.unaryop)) for x in ast.walk(a.value))]
+
+    def pred(cond, env):
+        if isinstance(cond, ast.Compare) and len(cond.ops) == 1:
+            src = norm(cond).replace('DbCacheTransaction.index', '_i')
+            return eval(compile(ast.parse(src, mode='eval'), '<page>', 'eval'), {'__builtins__': {}}, env)
+        if isinstance(cond, ast.Call) and isinstance(cond.func, ast.Attribute) and cond.func.attr == 'between' and norm(cond.func.value) == 'DbCacheTransaction.index' and len(cond.args) == 2:
+            lo = eval(compile(ast.Expression(cond.args[0]), '<page>', 'eval'), {'__builtins__': {}}, env)
+            hi = eval(compile(ast.Expression(cond.args[1]), '<page>', 'eval'), {'__builtins__': {}}, env)
+            return lo <= env['_i'] <= hi
+        raise AnalysisError('condition `%s` on the transaction index is outside the model' % norm(cond)[:60])
+    n = 0
+    first = None
+    for page in range(1, 6):
+        for limit in range(1, 8):
+            env = {'page': page, 'limit': limit}
+            for a in locals_:
+                try:
+                    env[a.targets[0].id] = eval(compile(ast.Expression(a.value), '<page>', 'eval'), {'__builtins__': {}}, env)
+                except Exception:
+                    pass
+            got = []
+            for i in range(0, 41):
+                env['_i'] = i
+                try:
+                    if all(pred(c, env) for c in conds):
+                        got.append(i)
+                except AnalysisError as e:
+                    ctx.undecided('getblocktransactions: %s' % e)
+                except Exception as e:
+                    ctx.undecided('getblocktransactions: index condition not evaluable: %r' % e)
+            exp = list(range((page - 1) * limit, page * limit))
+            n += 1
+            if got != exp and first is None:
+                first = (page, limit, got, exp)
+    ctx.saw('index conditions %s evaluated on %d (page, limit) pairs' % ([norm(c)[:50] for c in conds], n))
+    if first:
+        ctx.violate(q, 'page %d with limit %d reads the cached transactions with index %s, expected %s' % (first[0], first[1], first[2][:9], first[3][:9]), conds[0],
+                    'after page 2 was cached, page 1 is answered from the cache with limit+1 transactions - the first transaction of page 2 included - and no provider is asked: not what any provider returned')
+    ctx.floor(n, 35, '(page, limit) pairs')
